@@ -110,6 +110,85 @@ def known_finding_cases(ctx):
     one(ctx, "minimize-collapse-brace", {}, "symbol", data, seq, do_model=True)
 
 
+def touching_test(ctx, reps):
+    """whole runs (`Lithium.run`, files on disk) with a test whose tool REWRITES the file it is given — header, region and
+    trailer — during some tests (an in-place formatter): every file Lithium presents afterwards, and the final file, have
+    the original bytes outside the markers again (each candidate is written in full)"""
+    from .. import scripts
+    from . import drv
+    rng = ctx.rng
+    fl = [(kind, d) for kind, ds in drv.INPUTS.items() for d in ds if b"DDBEGIN" in d]
+    fl += [("line", b"\thead // x\n// DDBEGIN\na\nb\n{\n}\nc\n// DDEND\n\ttail\n"), ("char", b"\th\nDDBEGIN\nabcd\nDDEND\n\tt\n"),
+           ("symbol", b"h;\n/* DDBEGIN */\na;b{c};d;\n/* DDEND */\nt;\n")]
+    for name, opts in drv.STRATS:
+        if name == "check-only":
+            continue
+        for kind, data in fl:
+            for _ in range(reps):
+                p = rng.choice([0.3, 0.6, 1.0])
+                seq = [rng.random() < p for _ in range(400)]
+                tseq = [rng.random() < 0.6 for _ in range(400)]
+                shown = []
+
+                def dec(k, disk, seq=seq, shown=shown):
+                    shown.append(disk)
+                    return "a" if k == 0 or seq[k % len(seq)] else "r"
+
+                try:
+                    o, _f, _run = scripts.play_real(name, opts, kind, data, dec, touch=lambda k, tseq=tseq: tseq[k % 400], touch_head=True)
+                except Exception as exc:  # pylint: disable=broad-except
+                    ctx.fail("internal-error", f"{name}/{kind}: {type(exc).__name__}: {exc}", dict(strategy=name, splitter=kind, data=enc_bytes(data)))
+                    continue
+                head, region, tail = frame(data)
+                need_tail = (region[-1:] + tail) if (kind == "char" and region) else tail
+                case = dict(strategy=name, opts={k: str(v) for k, v in opts.items()}, splitter=kind, data=enc_bytes(data), touching_test=True)
+                ctx.evaluations += 1
+                ctx.bump("touching-test")
+                for k, c in enumerate(shown + [o.disk]):
+                    if not c.startswith(head) or not c.endswith(need_tail):
+                        ctx.fail("frame-modified", f"{name}/{kind}, the tool under test rewrites its input in place: "
+                                 f"{'the final file' if k == len(shown) else f'the file presented to test {k}'} is {c!r} "
+                                 f"(prefix {head!r}, suffix {need_tail!r})", case)
+                        break
+                if len(shown) > 2:
+                    ctx.nontriv("touching", name, repr(sorted(opts.items())), kind, data, tuple(seq[:20]))
+
+
+def big_marker_files(ctx):
+    """files larger than any read block whose marker lines sit right at 64 KiB / 128 KiB / 1 MiB offsets, CR LF ended: the
+    frame is what the line structure of the WHOLE file says"""
+    for boundary in (1 << 16, 1 << 17, 1 << 20):
+        for where in ("ddbegin-cr-last", "ddbegin-cr-first", "ddend-cr-last"):
+            begin = b"// DDBEGIN\r\n"
+            region = b"crash(a);\r\nb();\r\n"
+            end = b"// DDEND\r\n"
+            if where == "ddbegin-cr-last":        # the CR of the DDBEGIN line is the last byte of a block
+                pad = boundary - len(begin) + 1
+            elif where == "ddbegin-cr-first":     # ... the first byte of the next one
+                pad = boundary - len(begin) + 2
+            else:                                 # the CR of the DDEND line is the last byte of a block
+                pad = boundary - len(begin) - len(region) - len(end) + 1
+            line = b"// " + b"h" * 61 + b"\r\n"
+            head = line * (pad // len(line) - 1)
+            head += b"/" * (pad - len(head) - 2) + b"\r\n"
+            assert len(head) == pad
+            data = head + begin + region + end + b"tail();\r\n"
+            for kind in ("line", "char", "symbol"):
+                res = loaders.real_load(kind, data)
+                case = dict(splitter=kind, big_file=len(data), marker_at=where, boundary=boundary)
+                ctx.evaluations += 1
+                ctx.bump("big-marker-files")
+                if res[0] != "ok":
+                    ctx.fail("load", f"{kind}: load failed on a {len(data)}-byte marker file: {res[1]}", case)
+                    continue
+                f = strat.fields(res[1])
+                want_before, want_after = head + begin, (b"\n" if kind == "char" else b"") + end + b"tail();\r\n"
+                if f[0] != want_before or f[3] != want_after:
+                    ctx.fail("load-frame", f"{kind}: {len(data)}-byte file, {where} at {boundary}: protected prefix ends {f[0][-14:]!r} (expected "
+                             f"{want_before[-14:]!r}), suffix starts {f[3][:12]!r} (expected {want_after[:12]!r})", case)
+                ctx.nontriv("big-marker", kind, where, boundary)
+
+
 def search(ctx):
     sweep(ctx, 3, True, do_model=False)
 
@@ -118,6 +197,8 @@ def run(ctx) -> int:
     proof = common.proof_stage(ctx.pid)
     known_finding_cases(ctx)
     sweep(ctx, 3 if ctx.thorough else 2, ctx.thorough)
+    touching_test(ctx, 3 if ctx.thorough else 1)
+    big_marker_files(ctx)
     return common.decide(ctx, proof, RULE, search=search,
                          assumptions=["the two rewriting strategies and the experimental move touch only parts/reducible: monitored on the real code, not proved"])
 
